@@ -94,6 +94,9 @@ func (s *bufSys) Apply(op string) (obs, sig, msg string) {
 	case op[0] == 'W':
 		s.seq++
 		p := pktBytes(s.seq, arg)
+		if arg == 0 && s.seq%2 == 1 {
+			p = nil // the empty packet spelled as a nil slice (every other one): still one packet
+		}
 		keep := append([]byte(nil), p...)
 		n, err := s.b.Write(p)
 		for i := range p {
